@@ -60,7 +60,9 @@ TraceClass(e) ==
                          THEN ",as-built=" \o (IF AsBuilt(e) THEN "yes" ELSE "NO") ELSE "")
 StepViol(e) ==
     LET c == TraceClass(e) IN
-    {Sig(k, c, e) : k \in StepBroken(e, st, e.post)}
+    {Sig(k, c, e) : k \in StepBroken(e, st, e.post)
+                      \cup (IF e.ev = "redeem" /\ e.ok
+                            THEN RedeemObservedBroken(st, e.post, e.args.denom, e.args.amt, e.obs.paid) ELSE {})}
     \cup {Sig(n, c, e) : n \in BrokenInvariants(e.post) \ BrokenInvariants(st)}
 
 StepDiv(e) ==
